@@ -213,6 +213,11 @@ func oracleC20(p *Pair, env *Env, a [][]byte) *Failure {
 	if mayInstall && !changed {
 		return &Failure{What: "self-update did not install the newer verified release", Detail: detail}
 	}
+	// failures must be reported
+	upToDate := sc.ListFail == 0 && best != nil && !verLess(sc.Running, best.tag) && best.rel.Checksum != "missing"
+	if !changed && !upToDate && exit == 0 {
+		return &Failure{What: "self-update could not update but exits with status 0", Detail: detail}
+	}
 	// the Lean model of the decision (Crs.Updater.decideUpdate) on the same catalogue: row K11
 	{
 		verArg := func(tag string) string {
@@ -261,11 +266,6 @@ func oracleC20(p *Pair, env *Env, a [][]byte) *Failure {
 		if !corruptChosen && (modelSays != observed || (modelSays == "install" && !bytes.Equal(mr.Out[1], now))) {
 			return &Failure{What: "obligation: correspondence K11 — the model's decision differs from what the binary did", Detail: fmt.Sprintf("model %s, binary %s\n%s", mr.String(), observed, detail)}
 		}
-	}
-	// failures must be reported
-	upToDate := sc.ListFail == 0 && best != nil && !verLess(sc.Running, best.tag) && best.rel.Checksum != "missing"
-	if !changed && !upToDate && exit == 0 {
-		return &Failure{What: "self-update could not update but exits with status 0", Detail: detail}
 	}
 	return nil
 }
@@ -395,6 +395,10 @@ func genC20(r *rand.Rand, tier string, env *Env) []Case {
 	mk(c20Scenario{Running: "v2.1.0-rc.1", Releases: []c20Release{good}}, "prerelease-build-of-newest-release")
 	mk(c20Scenario{Running: "v1.5.0", Releases: nil}, "no-releases")
 	mk(c20Scenario{Running: "v1.5.0", Releases: []c20Release{good}, ListFail: 500}, "list-failure")
+	// the service refuses in the shapes the real one uses: rate limit used up, secondary limit, not authorised, gone, bad gateway
+	for _, code := range []int{4031, 4032, 401, 404, 429, 502} {
+		mk(c20Scenario{Running: "v1.5.0", Releases: []c20Release{good}, ListFail: code}, fmt.Sprintf("list-refused-%d", code))
+	}
 	mk(c20Scenario{Running: "v1.5.0", Releases: []c20Release{{Tag: "v9.0.0", Prerelease: true, Platform: "linux_amd64", AssetKind: "raw", Checksum: "ok"}, {Tag: "v9.1.0", Draft: true, Platform: "linux_amd64", AssetKind: "raw", Checksum: "ok"}, good}}, "prerelease-and-draft-ignored")
 	// the newest release is incomplete (no checksum file yet): nothing older, no pre-release and no draft is a substitute
 	mk(c20Scenario{Running: "v2.0.0", Releases: []c20Release{{Tag: "v2.2.0", Platform: "linux_amd64", AssetKind: "raw", Checksum: "missing"}, good}}, "newest-incomplete-older-complete")
@@ -418,7 +422,7 @@ func genC20(r *rand.Rand, tier string, env *Env) []Case {
 			})
 		}
 		if chance(r, 0.05) {
-			sc.ListFail = pick(r, []int{500, 403})
+			sc.ListFail = pick(r, []int{500, 403, 4031, 4032, 404})
 		}
 		mk(sc, "random-catalogue")
 	}
